@@ -48,6 +48,16 @@ func genC09(mode string) func(t *rapid.T) c09Case {
 		for i := 0; i < n; i++ {
 			c.Requests = append(c.Requests, genRequest(t, mode, c.Depth, c.Batch))
 		}
+		if rapid.IntRange(0, 2).Draw(t, "same_prestate_pair") == 0 {
+			// two different valid batches on the same tree state, back to back (anything remembered per pre-root,
+			// per start index or per connection would serve the second one wrongly)
+			h := genHistory(t, c.Depth, 8)
+			for j := 0; j < 2; j++ {
+				if m := genValidParamsOn(t, h, mode, c.Batch); m != nil {
+					c.Requests = append(c.Requests, genReq{Method: "POST", Body: m.writeDoc(styleHexLower), Class: "valid:shared-prestate", Expect: "valid", Hash: m.InputHash})
+				}
+			}
+		}
 		m := genValidParams(t, mode, c.Depth, c.Batch)
 		c.Canary = genReq{Method: "POST", Body: m.writeDoc(styleHexLower), Class: "canary", Expect: "valid", Hash: m.InputHash}
 		return c
